@@ -10,6 +10,7 @@ import contracts.ttp  # noqa: F401
 import bounded.ttp_errors  # noqa: E402
 import bounded.ttp_plan  # noqa: E402
 import bounded.control  # noqa: E402
+import bounded.c13_spaces  # noqa: E402
 import bounded.packing_validate  # noqa: E402
 import bounded.qap  # noqa: E402
 import bounded.tsplib  # noqa: E402
@@ -198,6 +199,7 @@ def _prove_c13_inventory(tier, seed):
 
 
 PLANS["C13"].extra.append(_prove_c13_inventory)
+PLANS["C13"].bounded = list(PLANS["C13"].bounded) + [bounded.c13_spaces.harness]
 PLANS["C13"].assumptions = list(PLANS["C13"].assumptions) + [
     f"compiled kernel not under contract: {k} ({v})" for k, v in _C13_UNCOVERED.items()]
 
